@@ -20,13 +20,11 @@ inductive Err where
   | outOfDate           -- BoundBranchOutOfDate
   | localRequiresBound  -- LocalRequiresBoundBranch
   | emptyBranch         -- nothing to uncommit (excluded input: the command refuses before calling uncommit)
-  | ghostParent         -- GhostRevisionUnusableHere from set_parent_ids
   deriving DecidableEq, Repr
 
 def Err.toString : Err → String
   | .notPresent => "E:NotPresent" | .outOfDate => "E:OutOfDate"
   | .localRequiresBound => "E:LocalRequiresBound" | .emptyBranch => "E:Empty"
-  | .ghostParent => "E:GhostParent"
 
 /-- tag name ↦ revision (names are numbers here) -/
 abbrev Tags := List (Nat × Rev)
@@ -93,18 +91,20 @@ def outOfDate (master : Option Branch) (tip : Tip) : Bool :=
   | some m => m.tip != tip
   | none => false
 
-/-- `tree.set_parent_ids(parents)` refuses a ghost as first parent (only possible
-when the new tip is null: and a removed merge takes its place) -/
-def ghostFirst (g : Graph) (parents : List Rev) : Bool :=
-  match parents with
-  | p :: _ => !present g p
-  | [] => false
+/-- the parent list handed to `remove_tags` and `tree.set_parent_ids`: the new
+tip followed by the pending merges, newest removed revision's merges last;
+nothing when the new tip is `null:` (a tree without basis carries no pending
+merges) -/
+def newParents (t : Tip) (pm : List Rev) : List Rev :=
+  match t with
+  | none => []
+  | some x => x :: pm.reverse
 
 /-- the state written by `uncommit` once the walk has produced the new tip `t`
 and the pending-merge list `pm` -/
 def finish (g : Graph) (st : St) (old : Rev) (t : Tip) (pm : List Rev) (d : Nat) (keepTags isLocal : Bool) : St :=
   let newRevno := st.br.revno - d
-  let parents := t.toList ++ pm.reverse
+  let parents := newParents t pm
   let names := if keepTags then [] else removedTags g st.br.tags old parents
   { br := { tip := t, revno := newRevno,
             tags := if keepTags then st.br.tags else keepTagsOutside g st.br.tags old parents },
@@ -128,9 +128,7 @@ def uncommit (g : Graph) (st : St) (d : Nat) (keepTags isLocal : Bool) : Except 
         -- pending_merges = tree.get_parent_ids()[1:]
         match walk g old d st.parents.tail with
         | .error e => .error e
-        | .ok (t, pm) =>
-          if ghostFirst g (t.toList ++ pm.reverse) then .error .ghostParent
-          else .ok (finish g st old t pm d keepTags isLocal)
+        | .ok (t, pm) => .ok (finish g st old t pm d keepTags isLocal)
 
 /-- the bookkeeping of a commit of the working tree: a new revision `r` whose
 parents are the tree's parents; branch (and master) tip and revno advance; the
